@@ -128,9 +128,9 @@ def run():
         # every text of 4 classes over the 20-class alphabet: light runs for all, full runs for 1 in 8
         batches += [("gen4-%d" % k, [["-part", "gen", "-gen", "base,4,light,1,%d,4" % k]]) for k in range(4)]
         batches += [("gen4-full", [["-part", "gen", "-gen", "base,4,full,8,0,1"]]),
-                    ("mid5", [["-part", "gen", "-gen", "mid,5,light,12,0,1"]]),
-                    ("small5", [["-part", "gen", "-gen", "small,5,light,1,0,1"]]),
-                    ("small6", [["-part", "gen", "-gen", "small,6,light,12,0,1"]])]
+                    ("mid5", [["-part", "gen", "-gen", "mid,5,light,24,0,1"]]),
+                    ("small5", [["-part", "gen", "-gen", "small,5,light,2,0,1"]]),
+                    ("small6", [["-part", "gen", "-gen", "small,6,light,24,0,1"]])]
     for part, arglists in batches:
         trace = os.path.join(vlib.scratch(), "parse-%s.ndjson" % part)
         with open(trace, "wb") as o:
@@ -161,7 +161,7 @@ def run():
         "exhaustive": True,
         "rule": "gen: every text over the 20-class alphabet up to length L1 x {whole, every single cut, every pair of cuts} "
                 "x 12 histories (+ Reset;NewInput loading for 3 of them); every structured text of a 9-class alphabet of "
-                "length L3 (thorough also: 14-class alphabet, length 5, 1 in 12; 9-class, length 6, 1 in 12; every text of "
+                "length L3 (thorough also: 14-class alphabet, length 5, 1 in 24; 9-class, length 5, 1 in 2, and length 6, 1 in 24; every text of "
                 "4 classes over the 20-class alphabet, 1 in 8 of them with the full product) x all cuts on a "
                 "fresh parser + every history whole and with one cut set; "
                 "files: every tests/*.zy x every history whole + seeded single cuts, pairs and multi-cuts x random history; "
